@@ -16,6 +16,7 @@ import PurlModel.Lemmas.QualsStep
 import PurlModel.Lemmas.QualsSpec
 import PurlModel.Lemmas.BinSearch
 import PurlModel.Lemmas.IterOps
+import PurlModel.Lemmas.Utf8Order
 import PurlModel.Lemmas.RustUnicode
 namespace Purl.C11
 open Purl Purl.Generated
@@ -288,6 +289,11 @@ theorem insert_commutes (q : Quals) (hq : QInv q) (k₁ v₁ k₂ v₂ : Str) (h
   · exact absurd (e1.symm.trans e2) hne
   · intro e; exact absurd e hne
   · intro e; exact absurd e.symm hne
+
+/-- the comparator of the search compares `str`s, i.e. UTF-8 bytes; the model compares scalar values: the same order,
+for all strings (keys are ASCII, but the PROBE handed to `get` / `cmp` / `eq` need not be) -/
+theorem key_order_is_byte_order (a b : Str) : cmpBytes (utf8 a) (utf8 b) = cmpStr a b :=
+  cmpBytes_utf8 a b
 
 /-! ### iterators used piecemeal (`ItOp`: `next`, `next_back`, `nth`, `nth_back`, `len` in any order) -/
 
